@@ -51,3 +51,73 @@ class FakePysamModule:
                             continue
                     yield r
         self.AlignmentFile = AlignmentFile
+
+
+class SplitPysam:
+    """pysam stand-in for bamSplitByTag: one input file (a list of reads) and any number of output files.
+    Opening an output path in 'wb' mode TRUNCATES it (as the file system does); the number of simultaneously open output
+    handles and the number of opens per path are recorded."""
+
+    def __init__(self, inputs):
+        self.inputs = inputs              # path -> list of reads
+        self.out = {}                     # path -> list of written reads
+        self.opens = {}                   # path -> number of times opened for writing
+        self.open_now = 0
+        self.max_open = 0
+        self.indexed = []
+        self.passes = 0
+        mod = self
+
+        class _Header:
+            def copy(self):
+                return self
+
+        class AlignmentFile:
+            def __init__(self, path, mode='rb', header=None, **kw):
+                self.path = path
+                self.mode = mode
+                self.filename = path.encode()
+                self.header = _Header()
+                self.closed = False
+                if 'w' in mode:
+                    mod.out[path] = []
+                    mod.opens[path] = mod.opens.get(path, 0) + 1
+                    mod.open_now += 1
+                    if mod.open_now > mod.max_open:
+                        mod.max_open = mod.open_now
+                else:
+                    mod.passes += 1
+                    if mod.passes > 12:
+                        raise RuntimeError('harness: more than 12 passes over the input (driver loop does not terminate)')
+
+            def __iter__(self):
+                return iter(mod.inputs[self.path])
+
+            def write(self, r):
+                if self.closed:
+                    raise ValueError('I/O operation on closed file')
+                mod.out[self.path].append(r)
+
+            def close(self):
+                if not self.closed and 'w' in self.mode:
+                    mod.open_now -= 1
+                self.closed = True
+        self.AlignmentFile = AlignmentFile
+
+    def index(self, path):
+        self.indexed.append(path)
+
+
+class SerialPool:
+    def __init__(self, n=1):
+        pass
+
+    def __enter__(self):
+        return self
+
+    def __exit__(self, *a):
+        return False
+
+    def imap_unordered(self, fn, items):
+        for it in items:
+            yield fn(it)
